@@ -102,6 +102,12 @@ def _mean_or_sum(arg, axis=None, recursive=True, _combine_as_mean=False):
     if recursive and arg._derivs_:
         new_derivs = {}
         for (key, deriv) in arg._derivs_.items():
+
+            # A derivative is reduced over the unmasked elements of its parent;
+            # its own mask need not include the parent's mask.
+            if np.any(arg._mask_):
+                deriv = deriv.mask_where(arg._mask_)
+
             new_derivs[key] = _mean_or_sum(deriv, axis, recursive=False,
                                            _combine_as_mean=_combine_as_mean)
 
